@@ -490,6 +490,9 @@ func seqCache(a map[string]string) {
 	stats := map[string]int{}
 	for s := 0; s < nseq; s++ {
 		g := &gen{r: r, now: clockBase, nkeys: 2 + r.intn(5), stats: stats}
+		if s%8 == 7 {
+			g.nkeys = 150 + r.intn(250) // long chains and resizes of the underlying table
+		}
 		variants := []string{"default", "opts", "bare"}
 		variant := variants[r.intn(3)]
 		g.dflt = dfltChoices[r.intn(len(dfltChoices))]
@@ -500,8 +503,22 @@ func seqCache(a map[string]string) {
 		if variant == "bare" || g.dflt < 1 {
 			g.dflt = -2_000_000_000
 		}
-		for i := 0; i < nops; i++ {
-			l := g.op()
+		n := nops
+		if g.nkeys > 100 {
+			n = nops * 12
+		}
+		for i := 0; i < n; i++ {
+			var l string
+			switch {
+			case g.nkeys > 100 && i < n/3:
+				// bulk phase: fill the table (chains grow, the table grows)
+				l = fmt.Sprintf("set k%d %s %d", i%g.nkeys, g.v(), []int64{-2_000_000_000, 3_600_000_000_000, 50}[r.intn(3)])
+			case g.nkeys > 100 && i < n/2 && r.chance(2, 3):
+				// punch holes into the chains, then refill them
+				l = fmt.Sprintf("delete k%d", r.intn(g.nkeys))
+			default:
+				l = g.op()
+			}
 			stats[strings.Fields(l)[0]]++
 			run(l)
 		}
